@@ -26,8 +26,12 @@ Ctxs == {"expr", "assign", "augassign", "return", "if_test", "while_test", "for_
 Binds == {"none", "assign_before", "assign_after", "assign_same_line", "tuple_before", "for_target", "with_as",
           "annassign_before", "augassign_before", "walrus_before", "except_as", "import_in_fn", "nested_def", "global_decl",
           \* the name is a PARAMETER of the enclosing function, in every syntactic kind a parameter can take
+          \* the function merely carries @pytest.mark.usefixtures("fx"): the fixture is activated, the NAME is not bound
+          "usefixtures_mark",
           "param", "param_default", "param_annotated", "param_posonly", "param_kwonly", "param_kwonly_default", "param_vararg", "param_kwarg"}
-Vis == {"conftest", "same_file", "parent_conftest", "sibling_conftest", "sibling_prefix_conftest", "imported_by_conftest", "third_party", "not_a_fixture",
+\* same_file_late: the fixture is defined in the test's own file BELOW an earlier function whose body already uses
+\* (undeclared) another visible fixture -- whatever the analysis memoises at that first use must not hide the later definition
+Vis == {"same_file_late", "conftest", "same_file", "parent_conftest", "sibling_conftest", "sibling_prefix_conftest", "imported_by_conftest", "third_party", "not_a_fixture",
         "module_level_name", "imported_name", "module_function"}
 Shapes == {"no_params", "one_param", "many_params", "default_param", "annotated_param", "return_annot", "return_annot_params",
            "multiline", "multiline_trailing_comma", "trailing_comma", "method", "async_fn", "decorated", "star_args", "kwargs",
@@ -48,7 +52,7 @@ Next == UNCHANGED cs
 Spec == Init /\ [][Next]_cs
 
 \* is the name a fixture visible from the test file?
-Visible(v) == v \in {"conftest", "same_file", "parent_conftest", "imported_by_conftest", "third_party"}
+Visible(v) == v \in {"conftest", "same_file", "same_file_late", "parent_conftest", "imported_by_conftest", "third_party"}
 \* is it hidden by a module-level / imported name of the file (those are never fixtures requests)
 ModuleName(v) == v \in {"module_level_name", "imported_name", "module_function"}
 \* is the use preceded by a local binding on an EARLIER line
